@@ -3,8 +3,11 @@ L5 model: link hypergraph, `discover_links` literal loop, LinkManager / DataColl
 bookkeeping.  Mirrors `glue/core/link_manager.py` (accessible_links, discover_links,
 LinkManager.add_link / remove_link / _component_removed / _data_removed /
 update_externally_derivable_components), `glue/core/data_collection.py` (_sync_link_manager,
-delay_link_manager_update, append, remove) and the lazy evaluation of the installed
-`DerivedComponent`s through `Data.get_data` / `ComponentLink.compute`.  Core Lean only.
+delay_link_manager_update, append, remove), `glue/core/data.py` (internal derived components:
+add_component_link, remove_component / _remove_component / _removed_derived_that_depend_on — the
+recursive cascade, every removal announced —, update_id, `links`) and the lazy evaluation of the
+own and of the installed `DerivedComponent`s through `Data.get_data` / `ComponentLink.compute`.
+Core Lean only.
 -/
 namespace GlueVerif.Links
 
@@ -234,9 +237,8 @@ def Entry.mentions (e : Entry) (c : Cid) : Bool := e.objs.any (·.mentions c)
 
 def Entry.cids (e : Entry) : List Cid := e.objs.flatMap fun o => o.link.to :: o.link.froms
 
-/-- `self._links | self._inverse_links` as (object id, link) pairs (data-internal links are not
-modelled: the datasets have no coordinates and no internal derived components). -/
-def effLinks (ext : List Entry) : List (Nat × CLink) :=
+/-- The external part of `self._links | self._inverse_links` as (object id, link) pairs. -/
+def effLinksExt (ext : List Entry) : List (Nat × CLink) :=
   let objs := ext.flatMap Entry.objs
   objs.map (fun o => (o.id, o.link)) ++ objs.filterMap LinkObj.inverse
 
@@ -250,8 +252,12 @@ def scanList (ord : List Nat) (all : List (Nat × CLink)) : List CLink :=
 
 structure DSet where
   id : Nat
-  /-- own cids: `main_components + coordinate_components` -/
+  /-- stored cids: `main_components + coordinate_components` (what `discover_links` starts from) -/
   comps : List Cid
+  /-- internal derived components (`derived_components`, in `_components` order): the object id and
+  the `ComponentLink` of each `DerivedComponent` (`link.to` is the derived cid, `link.froms` are
+  components of the same dataset; such links have no inverse) -/
+  derived : List (Nat × CLink)
   /-- registered with the collection's hub (has been appended at some time) -/
   hub : Bool
   /-- `_externally_derivable_components` as installed by the last update -/
@@ -259,6 +265,11 @@ structure DSet where
   /-- recursion fuel matching that update -/
   fuel : Nat
   deriving Repr
+
+def DSet.derivedIds (D : DSet) : List Cid := D.derived.map (·.2.to)
+
+/-- `data.components` (without order): stored and internal derived cids. -/
+def DSet.ids (D : DSet) : List Cid := D.comps ++ D.derivedIds
 
 structure MState where
   /-- `dc._data` -/
@@ -275,12 +286,21 @@ structure MState where
 
 def MState.init : MState := ⟨[], [], [], 0, []⟩
 
+/-- `self._links | self._inverse_links`: the internal links (`data.links`) of every dataset **of the
+collection**, the external links and the inverses, as (object id, link) pairs. -/
+def effLinks (s : MState) : List (Nat × CLink) := s.dsets.flatMap (·.derived) ++ effLinksExt s.ext
+
 inductive Op where
   | newData (d : Nat) (comps : List (Cid × Val))
   | append (d : Nat)
   | remove (d : Nat)
   | addComp (d : Nat) (c : Cid) (v : Val)
+  /-- `data.add_component_link(ComponentLink(froms, to, using=fn), to)`: an internal derived attribute -/
+  | addDerived (d : Nat) (i : Nat) (l : CLink)
+  /-- `data.remove_component(c)`: removes `c` and, recursively, every derived attribute reading it -/
   | removeComp (d : Nat) (c : Cid)
+  /-- `data.update_id(old, new)` -/
+  | updateId (d : Nat) (old new : Cid)
   | addLink (e : Entry)
   | addLinks (es : List Entry)
   | removeLink (id : Nat)
@@ -293,9 +313,11 @@ inductive Status where
   | ok | attributeError | valueError
   deriving DecidableEq, Repr
 
-/-- `update_externally_derivable_components()` for every dataset of the collection. -/
+/-- `update_externally_derivable_components()` for every dataset of the collection.  `ord` is the
+iteration order of the link set observed at the **last** such call of the operation (every call
+overwrites what the previous one installed). -/
 def update (ord : List Nat) (s : MState) : MState :=
-  let ls := scanList ord (effLinks s.ext)
+  let ls := scanList ord (effLinks s)
   { s with dsets := s.dsets.map fun D =>
       { D with cache := discoverLinks D.comps ls, fuel := ls.length + 1 } }
 
@@ -342,10 +364,60 @@ def findDs (ds : List DSet) (d : Nat) : Option DSet := ds.find? (fun D => D.id =
 def modDs (ds : List DSet) (d : Nat) (f : DSet → DSet) : List DSet :=
   ds.map fun D => if D.id = d then f D else D
 
+/-- `self._components.pop(c)`. -/
+def popCid (c : Cid) (D : DSet) : DSet :=
+  { D with comps := D.comps.filter (· != c), derived := D.derived.filter (fun p => p.2.to != c) }
+
+/-- Apply `f` to dataset `d`, in the collection (`inDc`) or outside it. -/
+def modAt (inDc : Bool) (s : MState) (d : Nat) (f : DSet → DSet) : MState :=
+  if inDc then { s with dsets := modDs s.dsets d f } else { s with outside := modDs s.outside d f }
+
+def dsAt (inDc : Bool) (s : MState) (d : Nat) : Option DSet :=
+  findDs (if inDc then s.dsets else s.outside) d
+
+/-- `Data._remove_component(c)` as coded, literally: pop `c`; list the derived components that read
+`c` (`_removed_derived_that_depend_on`) and remove each of them **recursively** — every one of these
+removals is announced on its own: `DataRemoveComponentMessage` (→ `LinkManager._component_removed`,
+which drops every stored link mentioning that cid and updates whatever the delay counter is) and
+`ComponentsChangedMessage` (→ `_sync_link_manager` when the dataset is in the collection) — and only
+then announce `c` itself.  A dataset that was never appended has no hub and announces nothing. -/
+def removeRec (ord : List Nat) (inDc : Bool) (d : Nat) : Nat → MState → Cid → MState
+  | 0, s, _ => s
+  | n + 1, s, c =>
+    match dsAt inDc s d with
+    | none => s
+    | some D =>
+      if c ∈ D.ids then
+        let s1 := modAt inDc s d (popCid c)
+        let deps := (((popCid c D).derived.filter fun p => decide (c ∈ p.2.froms)).map (·.2.to))
+        let s2 := deps.foldl (fun s z => removeRec ord inDc d n s z) s1
+        if inDc then sync ord (dropLinks ord (·.mentions c) s2)
+        else if D.hub then dropLinks ord (·.mentions c) s2 else s2
+      else s
+
+def renameCid (old new c : Cid) : Cid := if c = old then new else c
+
+/-- What `update_id(old, new)` does to the component table and to the links of the derived
+components (`link.replace_ids(old, new)`). -/
+def renameLink (old new : Cid) (l : CLink) : CLink :=
+  ⟨l.froms.map (renameCid old new), renameCid old new l.to, l.fn⟩
+
+def renameDs (old new : Cid) (D : DSet) : DSet :=
+  { D with comps := D.comps.map (renameCid old new),
+           derived := D.derived.map fun p => (p.1, renameLink old new p.2) }
+
+/-- `replace_ids` mutates the `ComponentLink` objects in place: a (stale) installed dict of any
+dataset that holds one of these objects sees the new ids (the dict key stays). -/
+def aliasCache (links : List CLink) (old new : Cid) (D : DSet) : DSet :=
+  { D with cache := { D.cache with via := D.cache.via.map fun p =>
+      if p.2 ∈ links then (p.1, renameLink old new p.2) else p } }
+
+def ownVal (vals : List (Cid × Val)) (c : Cid) : Val := (get vals c).getD []
+
 /-- One operation of a history; `ord` is the observed iteration order of the link set. -/
 def step (ord : List Nat) (s : MState) : Op → MState × Status
   | .newData d comps =>
-    ({ s with outside := s.outside ++ [⟨d, comps.map (·.1), false, ⟨[], []⟩, 0⟩],
+    ({ s with outside := s.outside ++ [⟨d, comps.map (·.1), [], false, ⟨[], []⟩, 0⟩],
               vals := s.vals ++ comps }, .ok)
   | .append d =>
     match findDs s.outside d with
@@ -357,34 +429,69 @@ def step (ord : List Nat) (s : MState) : Op → MState × Status
     let gone := s.dsets.filter (fun X => X.id == d)
     if gone.isEmpty then (s, .ok) else
     let s1 := { s with dsets := s.dsets.filter (fun X => X.id != d), outside := s.outside ++ gone }
-    (dropLinks ord (fun e => gone.any fun D => D.comps.any (e.mentions ·)) s1, .ok)
+    (dropLinks ord (fun e => gone.any fun D => D.ids.any (e.mentions ·)) s1, .ok)
   | .addComp d c v =>
     match findDs s.dsets d with
     | some D =>
-      if c ∈ D.comps then (s, .ok) else
+      if c ∈ D.ids then (s, .ok) else
       (sync ord { s with dsets := modDs s.dsets d (fun D => { D with comps := D.comps ++ [c] }),
                          vals := s.vals ++ [(c, v)] }, .ok)
     | none =>
       match findDs s.outside d with
       | none => (s, .ok)
       | some D =>
-        if c ∈ D.comps then (s, .ok) else
+        if c ∈ D.ids then (s, .ok) else
         ({ s with outside := modDs s.outside d (fun D => { D with comps := D.comps ++ [c] }),
                   vals := s.vals ++ [(c, v)] }, .ok)
-  | .removeComp d c =>
+  | .addDerived d i l =>
+    -- `add_component_link` raises ValueError unless every input is a component of the dataset;
+    -- `add_component` then announces `ComponentsChangedMessage`
     match findDs s.dsets d with
     | some D =>
-      if c ∈ D.comps then
-        let s1 := { s with dsets := modDs s.dsets d (fun D => { D with comps := D.comps.filter (· != c) }) }
-        (sync ord (dropLinks ord (·.mentions c) s1), .ok)
+      if l.to ∈ D.ids then (s, .ok) else
+      if l.froms.all (fun f => decide (f ∈ D.ids)) then
+        (sync ord { s with dsets := modDs s.dsets d (fun D => { D with derived := D.derived ++ [(i, l)] }) }, .ok)
+      else (s, .valueError)
+    | none =>
+      match findDs s.outside d with
+      | none => (s, .ok)
+      | some D =>
+        if l.to ∈ D.ids then (s, .ok) else
+        if l.froms.all (fun f => decide (f ∈ D.ids)) then
+          ({ s with outside := modDs s.outside d (fun D => { D with derived := D.derived ++ [(i, l)] }) }, .ok)
+        else (s, .valueError)
+  | .removeComp d c =>
+    match findDs s.dsets d with
+    | some D => (removeRec ord true d (D.derived.length + 1) s c, .ok)
+    | none =>
+      match findDs s.outside d with
+      | none => (s, .ok)
+      | some D => (removeRec ord false d (D.derived.length + 1) s c, .ok)
+  | .updateId d old new =>
+    -- `ComponentReplacedMessage` is a `ComponentsChangedMessage`: the collection re-syncs; the
+    -- LinkManager itself does nothing, stored external links keep naming `old`
+    if old = new then (s, .ok) else
+    match findDs s.dsets d with
+    | some D =>
+      if new ∈ D.ids then (s, .valueError) else
+      if old ∈ D.ids then
+        let al := aliasCache (D.derived.map (·.2)) old new
+        (sync ord { s with dsets := (modDs s.dsets d (renameDs old new)).map al,
+                           outside := s.outside.map al,
+                           vals := s.vals ++ [(new, ownVal s.vals old)] }, .ok)
       else (s, .ok)
     | none =>
       match findDs s.outside d with
       | none => (s, .ok)
       | some D =>
-        if c ∈ D.comps then
-          let s1 := { s with outside := modDs s.outside d (fun D => { D with comps := D.comps.filter (· != c) }) }
-          (if D.hub then dropLinks ord (·.mentions c) s1 else s1, .ok)
+        if new ∈ D.ids then (s, .valueError) else
+        if old ∈ D.ids then
+          -- (outside a delay block no dataset of the collection holds a link object of a dataset
+          -- that is not in the collection)
+          let al := aliasCache (D.derived.map (·.2)) old new
+          ({ s with outside := (modDs s.outside d (renameDs old new)).map al,
+                    dsets := if s.delay = 0 then s.dsets else s.dsets.map al,
+                    vals := s.vals ++ [(new, ownVal s.vals old)] }, .ok)
         else (s, .ok)
   | .addLink e =>
     match addOne s.ext e with
@@ -412,11 +519,18 @@ def run : MState → List (Op × List Nat) → MState
 
 /-! ### reading -/
 
-def ownVal (vals : List (Cid × Val)) (c : Cid) : Val := (get vals c).getD []
+/-- The dict `Data.get_data` looks a non-stored cid up in: `_components` (the dataset's own derived
+components) first, then `_externally_derivable_components`. -/
+def DSet.viaAll (D : DSet) : List (Cid × CLink) := D.derived.map (fun p => (p.2.to, p.2)) ++ D.cache.via
 
-/-- `data[cid]` on dataset `D`. -/
+/-- `data[cid]` on dataset `D`, with `n` levels of recursion. -/
+def readCidN (s : MState) (D : DSet) (n : Nat) (c : Cid) : Option Val :=
+  evalC D.comps (ownVal s.vals) applyFn D.viaAll n c
+
+/-- `data[cid]` on dataset `D` (enough levels for a chain through the installed links followed by
+the dataset's own derived attributes). -/
 def readCid (s : MState) (D : DSet) (c : Cid) : Option Val :=
-  evalC D.comps (ownVal s.vals) applyFn D.cache.via (D.fuel + 1) c
+  readCidN s D (D.fuel + D.derived.length + 1) c
 
 /-- `data.get_mask(cid > thr)`: elementwise on what the dataset reads; `none` = IncompatibleAttribute. -/
 def selectGt (thr : Int) (v : Option Val) : Option (List Bool) := v.map (·.map (fun x => decide (x > thr)))
@@ -425,20 +539,29 @@ def selectGt (thr : Int) (v : Option Val) : Option (List Bool) := v.map (·.map 
 def isDerivable (D : DSet) (c : Cid) : Bool := (get D.cache.via c).isSome
 
 /-- The current link list, in a canonical order (for the Spec). -/
-def curLinks (s : MState) : List CLink := (effLinks s.ext).map (·.2)
+def curLinks (s : MState) : List CLink := (effLinks s).map (·.2)
 
-/-- A cid a stored link may mention: parentless, or an own component of a dataset that is in
-the collection. -/
-def liveCid (s : MState) (c : Cid) : Bool := c.1 == freeDs || s.dsets.any (fun D => decide (c ∈ D.comps))
+/-- The dataset's own derived attributes are installed with their own links (no other link reaches
+a derived attribute of the dataset at a smaller or equal cost first).  Then `_components` and
+`_externally_derivable_components` agree and what the dataset reads is `discover_links` alone. -/
+def internalFirst (D : DSet) : Bool := D.derived.all fun p => get D.cache.via p.2.to == some p.2
+
+/-- A cid a stored link may mention: parentless, or a component (stored or derived) of a dataset
+that is in the collection. -/
+def liveCid (s : MState) (c : Cid) : Bool := c.1 == freeDs || s.dsets.any (fun D => decide (c ∈ D.ids))
 
 def noDangling (s : MState) : Bool := s.ext.all fun e => e.cids.all (liveCid s)
 
-/-- Hypothesis on a history for `manager_no_dangling`: links are only added between live cids. -/
+/-- Hypothesis on a history for `manager_no_dangling` / `manager_inv`: links are only added between
+live cids, datasets own their cids, a derived attribute reads at least one attribute, and a
+ComponentID that a stored link mentions is not replaced. -/
 def wfOp (s : MState) : Op → Bool
   | .addLink e => e.cids.all (liveCid s)
   | .addLinks es => es.all fun e => e.cids.all (liveCid s)
   | .newData d comps => comps.all (fun p => p.1.1 == d) && d != freeDs
   | .addComp d c _ => c.1 == d
+  | .addDerived d _ l => l.to.1 == d && !l.froms.isEmpty && l.froms.all (·.1 == d)
+  | .updateId d old new => new.1 == d && !(s.ext.any (·.mentions old))
   | _ => true
 
 def runWf : MState → List (Op × List Nat) → Bool
